@@ -4,7 +4,7 @@ from vverif.core import Result, HarnessError
 
 LEVEL = 'exploration'
 RULE = ('(1) every request line generated from {prefix: none, CRLF[, LF]} x {method: GET, A, all 15 tchar specials, 33 x M[, 32 x M, get, '
-        'CONNECT]} x {target: /, http://h/p?q, *[, h:1, /%41/x, /a?b=c&d]} x {version: 1.1, 2.0, 12.1, none[, 1.0, 0.9, 1.10]} x '
+        'CONNECT]} x {target: /, http://h/p?q, *[, h:1, /%41/x, /a?b=c&d]} x {version: 1.1, 2.0, 12.1, 0.9, none[, 1.0, 1.10]} x '
         '{terminator: CRLF, LF[, CRCRLF]} ([..] = thorough only) with EVERY single-octet substitution (all 256 values at every position), '
         'every insertion of SP/HTAB/VT/FF/CR/LF/NUL at every position and every single deletion; (2) every string of <= 4 (quick) / 5 '
         '(thorough) tokens over 22 tokens (methods, delimiters, CR, LF, CRLF, targets, HTTP/1.1, HTTP/0.9, HTTP/12.1, "HTTP/", "1", ".", '
